@@ -40,7 +40,8 @@ Section Inv.
     (dirty s = false -> forall p, params s = Some p -> extract (working s) = OOk p)
     /\ pidx s = widx (index_of (working s))
     /\ Forall fetched (states s)
-    /\ (forall p, params s = Some p -> pyok p).
+    /\ (forall p, params s = Some p -> pyok p)
+    /\ werr (index_of (working s)) = None.
 
   Definition broke (o:out) : Prop := match o with OBroke _ => True | _ => False end.
   (* the operations of the property; the python object given to update_from_python is a round-trip object *)
@@ -61,6 +62,7 @@ Section Inv.
   Lemma Inv_mk : forall w p d st idx ms md,
     (d = false -> forall q, p = Some q -> extract w = OOk q) ->
     idx = widx (index_of w) -> Forall fetched st -> (forall q, p = Some q -> pyok q) ->
+    werr (index_of w) = None ->
     Inv (mkst w p d st idx ms md).
   Proof. intros. unfold Inv. cbn. auto. Qed.
 
@@ -71,22 +73,24 @@ Section Inv.
     destruct (werr (build_of w)) eqn:W; [discriminate|].
     destruct (extract w) as [p|e] eqn:X; [|discriminate].
     intros H. inversion H; subst s0. clear H.
-    destruct (build_of_index_of w (Ht _ _ _ F) W) as [Ei _].
+    destruct (build_of_index_of w (Ht _ _ _ F) W) as [Ei Ee].
     apply Inv_mk.
     - intros _ q Hq. inversion Hq; subst. exact X.
     - exact Ei.
     - constructor.
     - intros q Hq. inversion Hq; subst. eapply He; eauto.
+    - exact Ee.
   Qed.
 
   (* rebuild_index either raises (OBroke) or continues with the fresh index *)
   Lemma rebuild_then_spec : forall (s:state) k,
     (exists e, rebuild_then py s k = (set_pidx py s (widx (index_of (working s))), OBroke e))
-    \/ rebuild_then py s k = k (set_pidx py s (widx (index_of (working s)))).
+    \/ (werr (index_of (working s)) = None
+        /\ rebuild_then py s k = k (set_pidx py s (widx (index_of (working s))))).
   Proof.
     intros s k. unfold rebuild_then. destruct (werr (index_of (working s))) as [e|].
     - left. exists e. reflexivity.
-    - right. reflexivity.
+    - right. split; reflexivity.
   Qed.
 
   Ltac absurd_broke := let Hb := fresh "Hb" in intros Hb; exfalso; apply Hb; exact Logic.I.
@@ -96,9 +100,9 @@ Section Inv.
   Proof.
     intros s u only ov HI. unfold merge.
     set (red := if ov then redundant py s u else []).
-    destruct HI as (I1 & I2 & I3 & I4).
+    destruct HI as (I1 & I2 & I3 & I4 & I5).
     destruct (fetch master _) as [new|e] eqn:F.
-    - destruct (rebuild_then_spec (set_working py s new) (fun s2 => (invalidate py s2, ONone))) as [[e H]|H]; rewrite H; cbn [fst snd].
+    - destruct (rebuild_then_spec (set_working py s new) (fun s2 => (invalidate py s2, ONone))) as [[e H]|[HW H]]; rewrite H; cbn [fst snd].
       + absurd_broke.
       + intros _. destruct s; cbn in *. apply Inv_mk; auto; intros; discriminate.
     - destruct red; cbn [fst snd].
@@ -114,7 +118,7 @@ Section Inv.
     intros po p s1 Hf Hst Hpar Hp Hnone. unfold ufp_tail, push.
     destruct (fetch (working s1) []) as [c|e] eqn:F.
     - destruct (format master p) as [t|e] eqn:Fm; cbn [fst snd].
-      + destruct (rebuild_then_spec (set_working py (set_states py s1 (states s1 ++ [c])) t) (fun s3 => (s3, ONone))) as [[e H]|H];
+      + destruct (rebuild_then_spec (set_working py (set_states py s1 (states s1 ++ [c])) t) (fun s3 => (s3, ONone))) as [[e H]|[HW H]];
           rewrite H; cbn [fst snd].
         * absurd_broke.
         * intros _. destruct s1; cbn in *. subst params. apply Inv_mk; auto.
@@ -129,7 +133,7 @@ Section Inv.
     H_fmt -> H_ext_ok ->
     Inv s -> op_ok o -> ~ broke (snd (step true s o)) -> Inv (fst (step true s o)).
   Proof.
-    intros s o Hf He HI Hok. pose proof HI as (I1 & I2 & I3 & I4).
+    intros s o Hf He HI Hok. pose proof HI as (I1 & I2 & I3 & I4 & I5).
     destruct o as [u only rs|u only ov|upd cls|po| | |i|mc|path|path|path]; cbn [Index.step].
     - (* update *)
       destruct (fetch master [u]); [apply merge_inv; exact HI|intros _; exact HI].
@@ -147,7 +151,7 @@ Section Inv.
     - (* pop *)
       destruct (states s) as [|x l] eqn:S; [intros _; exact HI|]. rewrite <- S. rewrite <- S in I3.
       match goal with |- context [rebuild_then py ?s2 ?k] =>
-        destruct (rebuild_then_spec s2 k) as [[e H]|H]; rewrite H; cbn [fst snd] end.
+        destruct (rebuild_then_spec s2 k) as [[e H]|[HW H]]; rewrite H; cbn [fst snd] end.
       + absurd_broke.
       + intros _. destruct s; cbn in *. apply Inv_mk; auto; try (intros; discriminate).
         apply Forall_removelast. exact I3.
@@ -157,7 +161,7 @@ Section Inv.
       destruct (nth_error (states s) (Z.to_nat i)) as [t|]; [|intros _; exact HI].
       destruct (fetch t []) as [c|e]; [|intros _; exact HI].
       match goal with |- context [rebuild_then py ?s2 ?k] =>
-        destruct (rebuild_then_spec s2 k) as [[e H]|H]; rewrite H; cbn [fst snd] end.
+        destruct (rebuild_then_spec s2 k) as [[e H]|[HW H]]; rewrite H; cbn [fst snd] end.
       + absurd_broke.
       + intros _. destruct s; cbn in *. apply Inv_mk; auto; intros; discriminate.
     - (* get_python_object *)
@@ -203,7 +207,7 @@ Section Inv.
   Theorem handout : forall fx s mc,
     Inv s -> working (step1 fx s (GetPy mc)) = working s /\ handout_ok s (snd (step fx s (GetPy mc))).
   Proof.
-    intros fx s mc (I1 & I2 & I3 & I4). unfold Index.step1. cbn [Index.step].
+    intros fx s mc (I1 & I2 & I3 & I4 & I5). unfold Index.step1. cbn [Index.step].
     destruct mc.
     - destruct (extract (working s)) eqn:X; cbn; auto.
     - destruct (dirty s) eqn:D; cbn [orb].
@@ -224,8 +228,22 @@ Section Inv.
     forall q o, In (q, o) (objs_of e) ->
     exists pre, locate [] (working s) q = Some (o, pre) /\ join_path pre (oname (ohdr o)) = path.
   Proof.
-    intros fx s path e (I1 & I2 & I3 & I4). cbn [Index.step snd]. intros H. inversion H as [H1]. clear H.
+    intros fx s path e (I1 & I2 & I3 & I4 & I5). cbn [Index.step snd]. intros H. inversion H as [H1]. clear H.
     rewrite I2 in H1. intros q o Hin. exact (index_of_good (working s) path e H1 q o Hin).
+  Qed.
+
+  (* completeness: the path of every object reindex_phil_objects reaches is found, and when no other
+     position of the working tree has that path, what is found is exactly that object *)
+  Theorem lookup_complete : forall fx s q o pre,
+    Inv s -> visible (working s) q = true -> locate [] (working s) q = Some (o, pre) ->
+    (forall q' o' pre', locate [] (working s) q' = Some (o', pre') ->
+       join_path pre' (oname (ohdr o')) = join_path pre (oname (ohdr o)) -> q' = q) ->
+    exists e, snd (step fx s (GetScopeByName (join_path pre (oname (ohdr o))))) = OEntry (Some e)
+              /\ forall q' o', In (q', o') (objs_of e) -> q' = q /\ o' = o.
+  Proof.
+    intros fx s q o pre (I1 & I2 & I3 & I4 & I5) Hv Hl Hu. cbn [Index.step snd]. rewrite I2.
+    destruct (index_of_unique (working s) q o pre I5 Hv Hl Hu) as [e [D H]].
+    exists e. rewrite D. split; [reflexivity|exact H].
   Qed.
 
   (* ---------- stack discipline *)
@@ -238,7 +256,7 @@ Section Inv.
     assert (E1 : last (states s1) (working s1) = c) by (rewrite E, S; apply last_last).
     assert (E2 : removelast (states s1) = l) by (rewrite E, S; apply removelast_last).
     match goal with |- context [rebuild_then py ?s2 ?k] =>
-      destruct (rebuild_then_spec s2 k) as [[e H]|H]; rewrite H; cbn [fst snd] end;
+      destruct (rebuild_then_spec s2 k) as [[e H]|[HW H]]; rewrite H; cbn [fst snd] end;
       destruct fx; destruct s1; cbn in *; auto.
   Qed.
 
